@@ -200,7 +200,7 @@ def foreign_paths(rng, streams):
     return rng.sample(cands, min(len(cands), rng.randint(1, 2)))
 
 
-def write_trace(root, streams, order=None, extra_files=None, foreign=None):
+def write_trace(root, streams, order=None, extra_files=None, foreign=None, links=None):
     """Materialise streams under root.  `order` is a list of indexes into
     streams giving the creation order (tmpfs lists directories in reverse
     creation order, so this decides the nftw order).  Within a stream dir the
@@ -214,6 +214,12 @@ def write_trace(root, streams, order=None, extra_files=None, foreign=None):
             later.append(rel)
             continue
         _write_foreign(root, rel)
+    for key, target in (links or {}).items():
+        # root/<key> is a symbolic link to a directory elsewhere (possibly on another file system)
+        os.makedirs(os.path.join(target, key), exist_ok=True)
+        os.makedirs(os.path.dirname(os.path.join(root, key)) or root, exist_ok=True)
+        if not os.path.lexists(os.path.join(root, key)):
+            os.symlink(os.path.join(target, key), os.path.join(root, key))
     for i in idx:
         s = streams[i]
         d = os.path.join(root, s.relpath)
